@@ -183,7 +183,9 @@ def _normalise_pub(toks, start, end, skip, replace, prefix, drops):
     if kw in ("struct", "union"):
         # fields: inside first {...} or (...) group at depth 0
         d = 0
-        for q in range(p, len(sig_idx)):
+        kwpos = p
+        while toks[sig_idx[kwpos]].text != kw: kwpos += 1
+        for q in range(kwpos, len(sig_idx)):
             t = toks[sig_idx[q]]
             if t.text in ("{", "(") and d == 0:
                 o = sig_idx[q]; c = match_close(toks, o)
